@@ -16,7 +16,8 @@ From Coq Require Import ZArith String List Bool.
 From PushModel Require Import Base.Sx Base.Machine Base.ListOps Base.F32 Model.Item Model.GraphT Model.State
   Model.InstrBase Model.IScalar Model.ICode Model.IVector Model.IGraph Model.Registry Model.Interp Model.RandomGen
   Model.IRand Model.RegistryAll Model.Cost
-  Proofs.CostBound Proofs.CostGrowthAll Proofs.CostRefute Proofs.CostDoubling.
+  Model.Topology Model.INeighbor
+  Proofs.CostBound Proofs.CostGrowthAll Proofs.CostRefute Proofs.CostDoubling Proofs.CostNegative.
 Import ListNotations.
 Close Scope string_scope.
 Open Scope Z_scope.
@@ -64,6 +65,31 @@ Section C15.
       (forall n k, hd_error (st_exec s) = Some (IInstr n) -> s2l k = n -> GrowthExcluded k = false) ->
       weight s' <= 2 * weight s + 64.
   Proof. exact step_growth. Qed.
+
+  (* A non-positive size operand allocates nothing, in any state: T.ONES / T.ZEROS (n <= 0),
+     FLOATVECTOR.SINE (repaired; n < 0), the three vector RANDs (size < 0), LIST.NEIGHBOR* (size <= 0). *)
+  Theorem C15_nonpositive_size_allocates_nothing :
+    (forall A (get : state -> list (list A)) set x s n r s',
+        st_int s = n :: r -> n <= 0 -> vec_fill get set x s = Ok s' -> weight s' = weight s - 1) /\
+    (forall s n r s', st_int s = n :: r -> n < 0 -> fvec_sine s = Ok s' -> weight s' <= weight s) /\
+    (forall p w s w' s' size r, st_int s = size :: r -> size < 0 ->
+        (bool_vector_rand p w s = Ok (w', s') -> weight s' <= weight s) /\
+        (float_vector_rand p w s = Ok (w', s') -> weight s' <= weight s)) /\
+    (forall p w s w' s' size hi lo r, st_int s = size :: hi :: lo :: r -> size < 0 ->
+        int_vector_rand p w s = Ok (w', s') -> weight s' <= weight s) /\
+    (forall p s s' t2 t1 t0 r, st_int s = t2 :: t1 :: t0 :: r -> t2 <= 0 ->
+        list_neighbor_ids p s = Ok s' -> weight s' <= weight s) /\
+    (forall p s s' t3 t2 t1 t0 r, st_int s = t3 :: t2 :: t1 :: t0 :: r -> t2 <= 0 ->
+        (list_neighbor_bvals p s = Ok s' -> weight s' <= weight s) /\
+        (list_neighbor_ivals p s = Ok s' -> weight s' <= weight s) /\
+        (list_neighbor_fvals p s = Ok s' -> weight s' <= weight s)).
+  Proof.
+    split; [exact (@fill_nonpos)|]. split; [exact sine_negative|].
+    split; [intros p w s w' s' size r E H; split; [exact (bool_vector_rand_negative p w s w' s' size r E H)
+                                                  |exact (float_vector_rand_negative p w s w' s' size r E H)]|].
+    split; [exact int_vector_rand_negative|]. split; [exact neighbor_ids_nonpos|].
+    intros p s s' t3 t2 t1 t0 r E H. repeat split; apply (neighbor_vals_nonpos _ _ p s s' t3 t2 t1 t0 r E H).
+  Qed.
 
   (* ================= the part that fails: operand-sized work ================= *)
 
@@ -153,6 +179,7 @@ Print Assumptions C15_cost_sort.
 Print Assumptions C15_cost_quadratic.
 Print Assumptions C15_weight_growth.
 Print Assumptions C15_step_growth.
+Print Assumptions C15_nonpositive_size_allocates_nothing.
 Print Assumptions C15_ones_zeros_unbounded_refuted.
 Print Assumptions C15_sine_unbounded_refuted.
 Print Assumptions C15_rand_vector_unbounded_refuted.
